@@ -250,7 +250,7 @@ func genReply(r *Rng) (method string, reply []byte, why string) {
 	}
 	extra := map[string]string{}
 	if r.Bool() {
-		extra = genHeaders(r, true)
+		extra = smallHeaders(r)
 		delete(extra, "_opid")
 	}
 	opid := strconv.Itoa(r.Intn(1 << 20))
